@@ -1,6 +1,7 @@
 //! Kani proof harnesses over the real h3 crates (engine K of /verif/DESIGN.md).
 #![allow(dead_code, unused_imports, clippy::all)]
 
+pub mod huffman_table;
 pub mod kbuf;
 pub mod refmodel;
 #[cfg(kani)]
@@ -12,4 +13,12 @@ mod c18;
 #[cfg(kani)]
 mod c19;
 #[cfg(kani)]
-mod scratch;
+mod c15;
+#[cfg(kani)]
+mod c13;
+#[cfg(kani)]
+mod framecore;
+#[cfg(kani)]
+mod c02;
+#[cfg(kani)]
+mod c14;
